@@ -1,5 +1,137 @@
+import NA.Model.Lock
 import NA.Core.IOUtil
-/-! Driver stub for C12 (not built yet): echoes its input. -/
+/-! Driver for C12 (core only): executes the lock model.
+One request per line, fields separated by TAB:
+
+* `base<TAB>STRING`                     → `path.Base` of the model (`NA.Flock.base`)
+* `run<TAB>SPECS<TAB>SCHEDULE`          → outcome of that schedule
+* `reach<TAB>SPECS<TAB>KILLABLE`        → all outcome vectors reachable by any interleaving
+                                           (KILLABLE: comma separated pids that may be killed)
+
+SPECS: invocations separated by `|`, each `d:ARG` (drc ARG) or `a:ARG` (do-approve … ARG).
+SCHEDULE: comma separated macro actions, `X<pid>`:
+  `s` one step, `f` one failing step, `k` SIGKILL, `g` finaliser,
+  `L` run until the flock step has been executed (or the process ended),
+  `S` run until the device session has begun (or the process ended),
+  `R` run to the end.
+Outcome: `procs=<v0>,<v1>,…;dev=<pids>;hist=<file>[<pid:tag,…>]…;status=<pids>` where `<vi>` is made of
+`W` (acquired the lock at some time), `L` (a flock failed), `K` (killed), then the exit code or `*`;
+`dev` lists the pids of the device sessions in order of their beginning, `hist` the history lines
+(START/POLICY/END) in file order, `status` the pids that wrote the status file, in order. -/
+namespace NA.Drv.C12
+open NA.Lock NA.LockSkel NA.IOUtil NA.Flock
+
+def parseSpec (s : String) : Option Spec :=
+  match s.splitOn ":" with
+  | k :: rest =>
+    let arg := ":".intercalate rest
+    if rest.isEmpty then none
+    else if k == "d" then some ⟨.drc, arg⟩
+    else if k == "a" then some ⟨.doApprove, arg⟩
+    else none
+  | _ => none
+
+def stepsUntil (w : World) (i : Pid) (stop : Proc → List Ev → Bool) : Nat → World
+  | 0 => w
+  | fuel + 1 =>
+    let p := w.procs i
+    if p.st != .running || stop p w.trace then w
+    else stepsUntil (exec w (.step i)) i stop fuel
+
+def pastFlock (i : Pid) (_ : Proc) (tr : List Ev) : Bool := tr.any fun e => e.pid == i && e.step == .flock
+def inSession (i : Pid) (_ : Proc) (tr : List Ev) : Bool := tr.any fun e => e.pid == i && e.step == .devBegin
+
+def applyMacro (w : World) (c : Char) (i : Pid) : Option World :=
+  match c with
+  | 's' => some (exec w (.step i))
+  | 'f' => some (exec w (.fail i))
+  | 'k' => some (exec w (.kill i))
+  | 'g' => some (exec w (.gc i))
+  | 'L' => some (stepsUntil w i (pastFlock i) 200)
+  | 'S' => some (stepsUntil w i (inSession i) 200)
+  | 'R' => some (stepsUntil w i (fun _ _ => false) 200)
+  | _ => none
+
+def parseMacro (s : String) : Option (Char × Pid) :=
+  match s.toList with
+  | c :: ds => (String.ofList ds).toNat?.map fun n => (c, n)
+  | [] => none
+
+def procVec (w : World) (n : Nat) : String :=
+  let one (i : Nat) : String :=
+    let p := w.procs i
+    (if p.everHeld then "W" else "") ++ (if p.lost then "L" else "") ++
+    (match p.st with | .killed => "K*" | .exited c => toString c | .running => "*")
+  ",".intercalate ((List.range n).map one)
+
+def tagName (t : String) : String := (t.replace "\"" "").replace ":" ""
+
+def dedupAdj : List Nat → List Nat
+  | a :: b :: rest => if a == b then dedupAdj (b :: rest) else a :: dedupAdj (b :: rest)
+  | l => l
+
+def insertSorted (s : String) : List String → List String
+  | [] => [s]
+  | a :: rest => if s ≤ a then s :: a :: rest else a :: insertSorted s rest
+
+def outcome (w : World) (n : Nat) : String :=
+  let tr := w.trace.reverse
+  let dev := tr.filterMap fun e => if e.step == .devBegin then some (toString e.pid) else none
+  let hs := tr.filterMap fun e =>
+    match e.step with
+    | .hist t => if tagName t == "RES" then none else some (e.file, s!"{e.pid}:{tagName t}")
+    | _ => none
+  let files := (hs.map (·.1)).foldl (fun acc f => if acc.contains f then acc else insertSorted f acc) []
+  let hist := files.map fun f => f ++ "[" ++ joinComma ((hs.filter (·.1 == f)).map (·.2)) ++ "]"
+  let st := dedupAdj (tr.filterMap fun e => if e.step == .status then some e.pid else none)
+  s!"procs={procVec w n};dev={joinComma dev};hist={String.join hist};status={joinComma (st.map toString)}"
+
+def parseSpecs (s : String) : Option (List Spec) := (splitBar s).mapM parseSpec
+
+def runSchedule (specs : List Spec) (sched : String) : Option World :=
+  (splitComma sched).foldlM (init := mkWorld specs) fun w m => do
+    let (c, i) ← parseMacro m
+    applyMacro w c i
+
+/-- All outcome vectors over interleavings of the macro steps L, S, R of every process, with
+optional kills of the listed processes at any point. `stage i` = how many macros process i has done. -/
+partial def reach (n : Nat) (killable : List Nat) (w : World) (stage : List Nat) (killed : List Nat)
+    (acc : List String) : List String :=
+  let running := (List.range n).filter fun i => (w.procs i).st == .running
+  if running.isEmpty then
+    let v := procVec w n
+    if acc.contains v then acc else v :: acc
+  else
+    running.foldl (init := acc) fun acc i =>
+      let st := stage.getD i 0
+      let c := if st == 0 then 'L' else if st == 1 then 'S' else 'R'
+      let w' := (applyMacro w c i).getD w
+      let acc := reach n killable w' (stage.set i (st + 1)) killed acc
+      if killable.contains i && !killed.contains i then
+        reach n killable (exec w (.kill i)) stage (i :: killed) acc
+      else acc
+
+def answer (line : String) : String :=
+  match splitTab line with
+  | ["base", s] => NA.Flock.base s
+  | ["base"] => NA.Flock.base ""
+  | ["run", specs, sched] =>
+    match parseSpecs specs with
+    | none => "bad-specs"
+    | some sp =>
+      match runSchedule sp sched with
+      | none => "bad-schedule"
+      | some w => outcome w sp.length
+  | ["reach", specs, kills] =>
+    match parseSpecs specs, natList kills with
+    | some sp, some ks =>
+      let vs := reach sp.length ks (mkWorld sp) (List.replicate sp.length 0) [] []
+      " ".intercalate (vs.foldl (fun acc v => insertSorted v acc) [])
+    | _, _ => "bad-input"
+  | _ => "bad-request"
+
+end NA.Drv.C12
+
 def main (_ : List String) : IO UInt32 := do
-  NA.IOUtil.eachLine id
+  NA.IOUtil.eachLine NA.Drv.C12.answer
   return 0
